@@ -539,6 +539,9 @@ def main(argv):
         return selftest.run(a.prop)
     if not a.prop:
         ap.error('property id required')
+    if a.prop == 'C11':
+        import kani_engine
+        return kani_engine.run('C11', a.tier, seed)
     return check_property(a.prop, a.tier, seed, a.keep)
 
 
